@@ -738,8 +738,10 @@ func (b *BaseStore) LoadFromSnapshot(ctx context.Context) error {
 			entries = append(entries, &entry.Entry{Hash: h})
 		}
 
-		if err := b.Sync(ctx, entries); err != nil {
-			return fmt.Errorf("unable to sync queued CIDs: %w", err)
+		// the saved queue only records hashes, which Sync cannot verify as
+		// heads: hand them to the replicator, which fetches entries by hash
+		if len(entries) > 0 {
+			go b.Replicator().Load(ctx, entries)
 		}
 	}
 
